@@ -78,7 +78,7 @@ def matrix_specs(rng, quick):
                     if kind in TERMINAL:
                         parts = parts[:pos + 1]      # later statements would be merged into the same part
                     specs.append({'parts': parts, 'on_error': oe, 'top': rng.choice(TOPS), 'import_end': 'n',
-                                  'path_variant': rng.choice(cb.PATH_VARIANTS)})
+                                  'path_variant': rng.choice(cb.PATH_VARIANTS), 'reruns': rng.choice([0, 0, 1, 2])})
     # a by-name lookup of a never-seen module (REQUIRES(module:…)) under every shape of sys.path
     for pv in cb.PATH_VARIANTS:
         for eff in (['rq:M'], ['rq:E'], ['rqi:M'], ['rqi:E', 'so.10']):
@@ -114,7 +114,7 @@ def random_spec(rng):
     return {'parts': parts, 'on_error': rng.choice(['return', 'raise']), 'top': rng.choice(TOPS),
             'import_end': rng.choice(['n'] * 12 + ['e', 's', 'k']), 'allskip': rng.random() < 0.04,
             'path_variant': rng.choice(cb.PATH_VARIANTS + [None] * 4),
-            'mode': rng.choice(['native'] * 5 + ['pytest'])}
+            'mode': rng.choice(['native'] * 5 + ['pytest']), 'reruns': rng.choice([0, 0, 0, 1, 2])}
 
 
 def edits_path(spec):
@@ -144,8 +144,12 @@ def _resolve_lookups(spec, tmpdir):
 
 def eval_doctest_spec(spec, tmpdir):
     """returns (result dict, list of property failures on the real code)"""
-    r = cb.run_doctest_case(_resolve_lookups(spec, tmpdir), tmpdir, _name('d'))
+    r = cb.run_doctest_case(dict(_resolve_lookups(spec, tmpdir), edits_path=edits_path(spec)), tmpdir, _name('d'))
     fails = []
+    # (a module that itself replaces sys.stdout while it is imported is outside the quantifier: no part is being captured then)
+    for w in ([] if any(t.startswith('so.') for t in spec.get('top', [])) else r.get('rerun_fails', [])):
+        fails.append({'what': 'sys.stdout / sys.path not restored by a later run of the same DocTest object', 'observed': w,
+                      'expected': 'after every run sys.stdout is the object that was there when that run started'})
     if r['loop']:
         fails.append({'what': 'an event loop is left running', 'observed': 'asyncio._get_running_loop() is not None'})
     for x in r['extras']:
